@@ -160,5 +160,7 @@ Lemma Inv_set_tx : forall t st, Inv (set_tx t st) <-> Inv st.
 Proof. intros. unfold Inv, SP, functional, imap. simpl. tauto. Qed.
 Lemma Inv_set_flushed : forall b st, Inv (set_flushed b st) <-> Inv st.
 Proof. intros. unfold Inv, SP, functional, imap. simpl. tauto. Qed.
+Lemma Inv_flag_bad : forall b st, Inv (flag_bad b st) <-> Inv st.
+Proof. intros. unfold Inv, SP, functional, imap. simpl. tauto. Qed.
 Lemma autobegin_inv : forall st, Inv st -> Inv (autobegin st).
 Proof. intros. unfold autobegin. destruct (tx st); auto. Qed.
